@@ -167,8 +167,7 @@ func (p *ProjectRunner) VerifInjectProbe(name string, kind string, ok bool, cont
 	if !ok {
 		state.Status = "failed"
 	}
-	prober.VerifInject(state)
-	return true
+	return prober.VerifInject(state)
 }
 
 func (p *ProjectRunner) verifProber(name string, kind string) *health.Prober {
